@@ -122,7 +122,7 @@ theorem ResourceTable.forLib_spec (rt : ResourceTable) (lib : Nat) (g : GlobalLi
     exact ⟨rt, st, r, rfl, hs, Nat.le_refl _, hr, hr.2.2.2.lookup hr', Nat.le_refl _⟩
   · obtain ⟨name, hn⟩ := g.getLibName_some lib hg hl
     rw [hn]
-    have h1 := st.indexFor_spec name hs
+    have h1 := st.indexFor_spec (libDisplayName name) hs
     refine ⟨_, _, _, rfl, h1.1, h1.2.2, ?_, ?_, ?_⟩
     · obtain ⟨a, b, c, d⟩ := hr
       refine ⟨by simp [a], ?_, ?_, ?_⟩
